@@ -127,7 +127,7 @@ example : WF exD ∧ Shape exD ∧
       ((t.nodes 2).map (fun n => (n.value, n.pendingBP)), (t.nodes 3).map (fun n => (n.value, n.lastVerified)),
         t.epoch, (runOps exD [.round [5, 3]] (restart t)).toOption.map (·.1))) =
       some (some (0, true), some (10, 1), 2, some [.round [5, 0] [3, 4, 5]]) :=
-  ⟨exD_wf, Or.inl exD_pf, by decide +kernel, by decide +kernel⟩
+  ⟨exD_wf, exD_pf.shape, by decide +kernel, by decide +kernel⟩
 
 end Qbice.CoreFw
 
